@@ -4,6 +4,7 @@ import (
 	"fmt"
 	"go/token"
 	"go/types"
+	"os"
 	"sort"
 	"strings"
 	"unicode"
@@ -813,7 +814,7 @@ func ruleLexClass(p *Prog, r *Report) {
 				goto filtered
 			}
 			CheckDomain(p, r, DomainSpec{Rule: rule, Key: rule + ":comment-filter:sml.(*parser).peek", Fn: fn,
-				Env:    map[string]Val{"len(p0.tokenQueue)": int64Val(0), "p0.tokenQueue": {K: KSlice, S: "p0.tokenQueue", Len: 0}},
+				Init:   map[string]Val{"p0.tokenQueue": {K: KSlice, S: "p0.tokenQueue!0", Len: 0}},
 				Subjs:  []Subj{{Name: "type of the token the lexer returned", Kind: SValue, Pick: pick, Type: typInt, NoReps: true, Extra: all}},
 				What:   "every token type except comment is handed to the grammar",
 				Accept: func(v []Val) bool { return v[0].I.Int64() != ttComment }})
@@ -831,7 +832,7 @@ filtered:
 // decide; the guard rule on peek() is used then.
 func commentFilterByEvaluation(p *Prog, r *Report, rule, key, pos string) bool {
 	fn := p.Func("sml", "(*parser).parseDataItem")
-	if fn == nil {
+	if fn == nil || strings.Contains(os.Getenv("SC_NOEVAL"), "comment-filter") {
 		return false
 	}
 	plain := []string{"<", "L", "<", "A", "\"x\"", ">", "<", "U1", "1", "2", ">", "<", "BOOLEAN", "T", ">", "<", "L", ">", ">"}
@@ -1395,7 +1396,7 @@ func ruleMsgScope(p *Prog, r *Report) {
 			continue
 		}
 		if fns, ok := privateToTokenSupplier(p, name, fieldPath); ok {
-			r.ok(rule, key, "", fmt.Sprintf("read only inside %s, which take the next token from the lexer: the one-token look-ahead of the token stream, whose effect on the parse is the token handed out, not per-message state", strings.Join(fns, ", ")))
+			r.ok(rule, key, "", fmt.Sprintf("read only inside %s, which hand out the next token of the lexer: the one-token look-ahead of the token stream, whose effect on the parse is the token handed out, not per-message state", strings.Join(fns, ", ")))
 			continue
 		}
 		if ok, _ := assignedOnAllPaths(name); ok {
@@ -1753,26 +1754,49 @@ func privateToTokenSupplier(p *Prog, name string, fieldPath func(ssa.Value) stri
 		nm, ok := res.At(0).Type().(*types.Named)
 		return ok && nm.Obj().Name() == "token"
 	}
-	readers := map[string]bool{}
-	for _, fn := range p.PkgFuncs("sml") {
-		reads, supplies := false, false
-		for _, b := range fn.Blocks {
-			for _, instr := range b.Instrs {
-				switch x := instr.(type) {
-				case *ssa.UnOp:
-					if x.Op == token.MUL {
-						if fp := fieldPath(x.X); fp == name || strings.HasPrefix(fp, name+".") {
-							reads = true
+	// suppliers: functions that hand out a token and get it from the lexer's
+	// token method, directly or from another supplier
+	returnsToken := func(f *ssa.Function) bool {
+		res := f.Signature.Results()
+		for i := 0; i < res.Len(); i++ {
+			if nm, ok := res.At(i).Type().(*types.Named); ok && nm.Obj().Name() == "token" {
+				return true
+			}
+		}
+		return false
+	}
+	supplier := map[*ssa.Function]bool{}
+	for changed := true; changed; {
+		changed = false
+		for _, fn := range p.PkgFuncs("sml") {
+			if supplier[fn] || !returnsToken(fn) {
+				continue
+			}
+			for _, b := range fn.Blocks {
+				for _, instr := range b.Instrs {
+					if c, ok := instr.(ssa.CallInstruction); ok {
+						if sc := c.Common().StaticCallee(); sc != nil && (isTokenCall(sc) || supplier[sc]) && !supplier[fn] {
+							supplier[fn] = true
+							changed = true
 						}
-					}
-				case ssa.CallInstruction:
-					if isTokenCall(x.Common().StaticCallee()) {
-						supplies = true
 					}
 				}
 			}
 		}
-		if reads && !supplies {
+	}
+	readers := map[string]bool{}
+	for _, fn := range p.PkgFuncs("sml") {
+		reads := false
+		for _, b := range fn.Blocks {
+			for _, instr := range b.Instrs {
+				if x, ok := instr.(*ssa.UnOp); ok && x.Op == token.MUL {
+					if fp := fieldPath(x.X); fp == name || strings.HasPrefix(fp, name+".") {
+						reads = true
+					}
+				}
+			}
+		}
+		if reads && !supplier[fn] {
 			return nil, false
 		}
 		if reads {
